@@ -530,3 +530,128 @@ pub fn poll_once<F: Future + ?Sized>(fut: std::pin::Pin<&mut F>) -> std::task::P
     let mut cx = std::task::Context::from_waker(&waker);
     fut.poll(&mut cx)
 }
+
+/* ------------------------------ lifecycle steps ---------------------------- */
+
+/// Outcome of a `send_*` step polled once: `None` = still pending, else `Some(is_ok)`;
+/// plus the number of frames that were handed to the outgoing channel.
+#[derive(Debug, Clone, Copy, PartialEq, Eq)]
+pub struct VSendOutcome {
+    pub ready_ok: Option<bool>,
+    pub frames: usize,
+}
+
+impl VSession {
+    pub fn send_begin(&mut self) -> VSendOutcome {
+        let (tx, mut rx) = mpsc::channel::<SessionFrame>(4);
+        let ready_ok = {
+            let mut fut = Box::pin(self.0.send_begin(&tx));
+            match poll_once(fut.as_mut()) {
+                std::task::Poll::Ready(r) => Some(r.is_ok()),
+                std::task::Poll::Pending => None,
+            }
+        };
+        let mut frames = 0;
+        while rx.try_recv().is_ok() {
+            frames += 1;
+        }
+        VSendOutcome { ready_ok, frames }
+    }
+    pub fn send_end(&mut self, with_error: bool) -> VSendOutcome {
+        let (tx, mut rx) = mpsc::channel::<SessionFrame>(4);
+        let error = with_error.then(|| {
+            fe2o3_amqp_types::definitions::Error::new(
+                fe2o3_amqp_types::definitions::AmqpError::InternalError,
+                None,
+                None,
+            )
+        });
+        let ready_ok = {
+            let mut fut = Box::pin(self.0.send_end(&tx, error));
+            match poll_once(fut.as_mut()) {
+                std::task::Poll::Ready(r) => Some(r.is_ok()),
+                std::task::Poll::Pending => None,
+            }
+        };
+        let mut frames = 0;
+        while rx.try_recv().is_ok() {
+            frames += 1;
+        }
+        VSendOutcome { ready_ok, frames }
+    }
+}
+
+/// A sender link in an arbitrary lifecycle state (no session behind it)
+pub struct VLink(crate::link::SenderLink<fe2o3_amqp_types::messaging::Target>);
+
+impl VLink {
+    pub fn new(local_state: crate::link::state::LinkState, has_output_handle: bool) -> Self {
+        let flow = Arc::new(LinkFlowState::sender(inner(VFlowInner {
+            initial_delivery_count: 0,
+            delivery_count: 0,
+            link_credit: 0,
+            available: 0,
+            drain: false,
+        })));
+        let link = crate::link::Link {
+            role: std::marker::PhantomData,
+            local_state,
+            name: String::new(),
+            output_handle: has_output_handle.then_some(OutputHandle(0)),
+            input_handle: None,
+            snd_settle_mode: Default::default(),
+            rcv_settle_mode: Default::default(),
+            source: None,
+            target: None,
+            max_message_size: 0,
+            offered_capabilities: None,
+            desired_capabilities: None,
+            flow_state: Consumer::new(Arc::new(Notify::new()), flow),
+            unsettled: Arc::new(parking_lot::RwLock::new(None)),
+            session_stop_reason: Arc::new(OnceLock::new()),
+            verify_incoming_source: false,
+            verify_incoming_target: false,
+        };
+        Self(link)
+    }
+    pub fn local_state(&self) -> &crate::link::state::LinkState {
+        &self.0.local_state
+    }
+    pub fn has_output_handle(&self) -> bool {
+        self.0.output_handle.is_some()
+    }
+    pub fn on_incoming_detach(&mut self, closed: bool, with_error: bool) -> Result<(), ()> {
+        use crate::endpoint::LinkDetach;
+        let error = with_error.then(|| {
+            fe2o3_amqp_types::definitions::Error::new(
+                fe2o3_amqp_types::definitions::AmqpError::InternalError,
+                None,
+                None,
+            )
+        });
+        let detach = fe2o3_amqp_types::performatives::Detach {
+            handle: Handle(0),
+            closed,
+            error,
+        };
+        self.0.on_incoming_detach(detach).map_err(|_| ())
+    }
+    pub fn send_detach(&mut self, closed: bool) -> VSendOutcome {
+        use crate::endpoint::LinkDetach;
+        let (tx, mut rx) = mpsc::channel::<crate::link::LinkFrame>(4);
+        let ready_ok = {
+            let mut fut = Box::pin(self.0.send_detach(&tx, closed, None));
+            match poll_once(fut.as_mut()) {
+                std::task::Poll::Ready(r) => Some(r.is_ok()),
+                std::task::Poll::Pending => None,
+            }
+        };
+        let mut frames = 0;
+        while rx.try_recv().is_ok() {
+            frames += 1;
+        }
+        VSendOutcome { ready_ok, frames }
+    }
+}
+
+pub use crate::link::state::LinkState as VLinkState;
